@@ -350,6 +350,8 @@ def words_of(o) -> str:
     kind = describe(o)[0]
     if kind in ("bool", "text"):
         return "-"
+    if len(o) == 0:
+        return "[]"
     if kind in ("time", "time_delta"):
         cols = [np.atleast_1d(np.asarray(o.jd1, dtype=np.float64)), np.atleast_1d(np.asarray(o.jd2, dtype=np.float64))]
         mat = np.stack(cols, axis=1) if len(cols[0]) else np.zeros((0, 2))
@@ -788,7 +790,7 @@ def one_dataset(ctx: Ctx, setup_ops, level: int, meta: dict, tmp: str, tag: str,
         if bmodel != bimpl and bmodel != "?":
             ctx.disagree("bit patterns of the arrays read back", case, bmodel[:600], bimpl[:600])
     except Exception as ex:     # the comparison itself must not stop the oracle below
-        ctx.count("bits:not-compared:" + type(ex).__name__)
+        ctx.disagree("bit patterns: the comparison raised", case, "-", type(ex).__name__ + ": " + str(ex)[:200])
     idx_w = restricted_index(ds, level)
     want = (ds.num_obs, oracle_fields(ds._fields, idx_w, level))
     got = (e.num_obs, oracle_fields(e._fields, field_index(e._fields), 0))
@@ -925,9 +927,13 @@ def run(ctx: Ctx):
                 "later field, field in a collection, field below the write level, anonymous, anonymous shared by several "
                 "fields, chains of those to depth 3; other -> time field / anonymous time; the user-registered `time` "
                 "attribute of positions -> time field / anonymous / shared (oracle only); dedicated templates for 'time in a "
-                "collection read first' and 'embedded object read early through a reference by name'; 4%: one array object "
-                "held by two fields), random meta trees to depth 3 over numbers, NaN, +-inf, tricky strings, booleans, None; "
-                "written with the real h5py into a temporary directory and read back; per dataset the model answers rt, "
+                "collection read first' and 'embedded object read early through a reference by name'; 12%: one array object "
+                "held by two or three fields, the extra fields before / after / between, nested, any level: written once + "
+                "same_as groups), random meta dicts (keys incl. blanks, dots, the word nan; values trees to depth 3 over "
+                "numbers, NaN, +-inf, tricky strings, booleans, None; 3% with a bare None value, which must be refused) and "
+                "vars dicts (50% non-empty, tricky keys and values); "
+                "written with the real h5py into a temporary directory and read back; per dataset the model answers rtm "
+                "(fields + meta + vars through writeDSM / readBackM), rtbits (every numeric array as IEEE-754 words), "
                 "restrict and info (Writable, branches of its write/read taken: 'branch …' counts; 'topology …' counts are "
                 "computed from the real objects); Writable => model rt == model restrict is checked as an instance of "
                 "theorem read_write; non-trivial = at least one field; distinct by canonical set-up operations, level and "
